@@ -12,6 +12,8 @@ for key, info in SEEDS.items():
         src = '/tmp/seed2-%s-out/%s' % (pid.lower(), {'C': 'A', 'D': 'B'}[x])
     if x in 'EF':
         src = '/tmp/seed3-%s-out/%s' % (pid.lower(), {'E': 'A', 'F': 'B'}[x])
+    if x in 'GH':
+        src = '/tmp/seed4-%s-out/%s' % (pid.lower(), {'G': 'A', 'H': 'B'}[x])
     dst = os.path.join(ROOT, 'seeded', key)
     if os.path.isdir(src):
         os.makedirs(os.path.join(dst, 'demo'), exist_ok=True)
@@ -40,7 +42,7 @@ for key, info in SEEDS.items():
             caught[cid] = {'exit': int(rc.group(1)) if rc else None, 'signatures': sigs[:4]}
     meta = {
         'property': pid, 'change': x,
-        'origin': 'written by an independent sub-agent that was given only the text of the property and its own scratch worktree of the repository (nothing from /verif)' + (' - second wave: additionally told which functions the first-wave changes for this property had touched, so as to pick other mechanisms' if x in 'CDEF' else ''),
+        'origin': 'written by an independent sub-agent that was given only the text of the property and its own scratch worktree of the repository (nothing from /verif)' + (' - second wave: additionally told which functions the first-wave changes for this property had touched, so as to pick other mechanisms' if x in 'CDEFGH' else ''),
         'breaks': info['breaks'], 'needs_to_manifest': info['needs'],
         'demonstration': info['demo'],
         'confirmed_by_coordinator': verified,
